@@ -33,7 +33,8 @@ pub enum Event {
         last_committed_round: Round,
         high_qc_round: Round,
     },
-    Vote { node: PublicKey, hash: Digest, round: Round },
+    /// `block` is the exact proposal voted for (its digest does not bind the TC or the QC's round).
+    Vote { node: PublicKey, hash: Digest, round: Round, block: Block },
     Timeout { node: PublicKey, round: Round, high_qc: QC },
     Round { node: PublicKey, from: Round, to: Round },
     QC { node: PublicKey, qc: QC },
